@@ -72,44 +72,6 @@ func c05Round3(c *Ctx) {
 		}
 	}
 
-	// (h) no stale copies: an account read from the state is a private copy; a function that stores accounts never
-	// collects the copies in a slice to write them back later — two collected copies of the same account make the
-	// second SetAccount overwrite the first credit (lost update). Accounts are fetched, changed and stored one at a
-	// time (a map keyed by the address, as in the stake accumulator cache, holds one copy per account and is fine).
-	n, bad := 0, 0
-	for _, fn := range c.P.ModFuncs {
-		if fn.Blocks == nil || !strings.Contains(fname(fn), "consensus/cometbft/apps/") || strings.Contains(fname(fn), "/tests") {
-			continue
-		}
-		writes := len(findCalls(fn, stPkg+".(*MutableState).SetAccount")) > 0
-		for _, call := range findCalls(fn, stPkg+".(*ImmutableState).Account") {
-			n++
-			if !writes {
-				continue
-			}
-			for _, v := range resultValues(call, 0) {
-				refs := v.Referrers()
-				if refs == nil {
-					continue
-				}
-				for _, r := range *refs {
-					collected := false
-					switch x := r.(type) {
-					case *ssa.Store:
-						if _, ok := x.Addr.(*ssa.IndexAddr); ok && x.Val == v {
-							collected = true
-						}
-					}
-					if collected {
-						bad++
-						c.Fail("C05.pair", fname(fn)+":account copy collected", c.P.InstrPos(r), "an account read from the state is put into a slice instead of being changed and stored at once: when the same address occurs twice the copies go stale and the later SetAccount overwrites the earlier credit (value is destroyed)")
-					}
-				}
-			}
-		}
-	}
-	if bad == 0 {
-		c.OK("C05.pair", "consensus apps:no account copy is collected", "", itoa(n)+" Account() reads, none stored into a slice element by a function that also stores accounts")
-	}
-	c.Floor("C05.pair", n, 20, "Account() reads in the consensus applications")
+	// (h) no stale account copies (shared with C15.debond)
+	staleAccountCopies(c, "C05.pair")
 }
